@@ -129,7 +129,9 @@ AnyErrSeq(s) == \E j \in 1..Len(s) : s[j].t \in {"err", "indef"}
 \*      environment carries the pseudo-binding __override_size;  any other unknown name is unbound: an evaluation error.
 HostNames == {"hecho", "hzero", "herr", "hval", "htyp"}
 HostApply(f, args) ==
-  IF AnyErrSeq(args) THEN Indef            \* an argument that is itself an error: the statement does not say
+  IF \E j \in 1..Len(args) : IsErr(args[j]) THEN Err     \* calls are strict: the function is invoked "with the evaluated CEL arguments", and an
+                                                         \* argument whose evaluation failed has none -- the error is the call's outcome
+  ELSE IF AnyErrSeq(args) THEN Indef
   ELSE CASE f = "hecho" -> List(args)
          [] f = "hzero" -> (IF args = <<>> THEN IntV(FromInt(7)) ELSE Indef)
          [] OTHER -> Err
@@ -213,8 +215,8 @@ Calls(e, env) ==
     [] e.k = "cond" -> Calls(e.c, env) \o (LET c == Eval(e.c, env) IN IF IsTrue(c) THEN Calls(e.a, env) ELSE IF IsFalse(c) THEN Calls(e.b, env) ELSE <<>>)
     [] e.k = "idx" -> Calls(e.x, env) \o Calls(e.i, env)
     [] e.k \in {"sel", "has"} -> Calls(e.x, env)
-    [] e.k = "call" -> CallsSeq(e.args, env) \o (IF IsHostCall(e.f, env) THEN << <<e.f, EvalSeq(e.args, env)>> >> ELSE <<>>)
+    [] e.k = "call" -> CallsSeq(e.args, env) \o (IF IsHostCall(e.f, env) /\ ~AnyErr(EvalSeq(e.args, env)) THEN << <<e.f, EvalSeq(e.args, env)>> >> ELSE <<>>)
     [] e.k = "mcall" -> Calls(e.x, env) \o CallsSeq(e.args, env)
-                        \o (IF IsHostCall(e.f, env) THEN << <<e.f, <<Eval(e.x, env)>> \o EvalSeq(e.args, env)>> >> ELSE <<>>)
+                        \o (IF IsHostCall(e.f, env) /\ ~AnyErr(<<Eval(e.x, env)>> \o EvalSeq(e.args, env)) THEN << <<e.f, <<Eval(e.x, env)>> \o EvalSeq(e.args, env)>> >> ELSE <<>>)
     [] e.k = "macro" -> Calls(e.x, env) \o (LET c == Eval(e.x, env) IN IF c.t # "list" THEN <<>> ELSE BodyCalls(e, env, c.v))
 =============================================================================
